@@ -16,11 +16,11 @@ import (
 )
 
 type OType struct {
-	Name      string
-	Vocab     *OVocab
-	Parents   []string // names (unique across vocabularies; asserted)
-	Disjoint  []string // declared disjointWith
-	Typeless  bool
+	Name     string
+	Vocab    *OVocab
+	Parents  []string // names (unique across vocabularies; asserted)
+	Disjoint []string // declared disjointWith
+	Typeless bool
 }
 
 type OProp struct {
@@ -43,13 +43,13 @@ type OVocab struct {
 }
 
 type Ontology struct {
-	Vocabs []*OVocab
-	Types  map[string]*OType
-	Props  map[string]*OProp // by vocab-qualified key "Vocab.name"
+	Vocabs      []*OVocab
+	Types       map[string]*OType
+	Props       map[string]*OProp // by vocab-qualified key "Vocab.name"
 	PropsByName map[string][]*OProp
-	anc    map[string]map[string]bool
-	desc   map[string]map[string]bool
-	Problems []string
+	anc         map[string]map[string]bool
+	desc        map[string]map[string]bool
+	Problems    []string
 }
 
 func specFiles() []string {
@@ -252,7 +252,7 @@ func (O *Ontology) TypeNames() []string {
 }
 
 // Anc: proper ancestors; AncSelf: ancestors or self.
-func (O *Ontology) Anc(n string) map[string]bool { return O.anc[n] }
+func (O *Ontology) Anc(n string) map[string]bool  { return O.anc[n] }
 func (O *Ontology) Desc(n string) map[string]bool { return O.desc[n] }
 func (O *Ontology) AncSelf(n string) map[string]bool {
 	s := map[string]bool{n: true}
